@@ -186,6 +186,8 @@ var utf8Samples = []struct {
 	{"bad2nd", []byte{0xe2, 0x28, 0xa1}}, {"bad3rd", []byte{0xe2, 0x82, 0x28}}, {"bad4th", []byte{0xf0, 0x9f, 0x98, 0x28}},
 	{"goodthenbad", []byte{0xe2, 0x82, 0xac, 0xed, 0xa0, 0x80, 'z'}},
 	{"lead2run8", append(append([]byte{0xc3}, []byte("abcdefgh")...), 0xa9)}, {"lead3run16", append(append([]byte{0xe2, 0x82}, []byte("abcdefghijklmnop")...), 0xac)},
+	{"ufffd", []byte("a\xef\xbf\xbdb")}, {"ufffe", []byte("\xef\xbf\xbe\xef\xbf\xbf")}, {"ufeff", []byte("\xef\xbb\xbfbom")}, {"ufdd0", []byte("\xef\xb7\x90")},
+	{"nul", []byte{'a', 0, 'b'}}, {"u1fffe", []byte("\xf0\x9f\xbf\xbe")}, {"ufffdonly", []byte("\xef\xbf\xbd")},
 	{"run8ok", []byte("abcdefgh\xc3\xa9ijklmnop")}, {"lead4run7", append(append([]byte{0xf0, 0x9f}, []byte("abcdefg")...), 0x98, 0x80)}, {"long", append([]byte("κόσμε-"), append(asciiPay(20, 0), []byte("-𝄞")...)...)},
 }
 
